@@ -328,13 +328,23 @@ func init() {
 		Outside: []string{"other range layouts, more than three replica sets, multi-key commands (their fragments are routed by the same code per slot)"}})
 	register(&CheckSpec{ID: "C20", Patterns: []string{pkgServer}, GoalsMust: true,
 		Jobs: func(tier string) []*JobCfg {
-			return []*JobCfg{job(pkgServer, "HarnessC20", 2, 0), job(pkgServer, "HarnessC20", 2, 1), job(pkgServer, "HarnessC20", 2, 2), job(pkgServer, "HarnessC20", 1, 0)}
+			probe := func(j *JobCfg) *JobCfg {
+				j.Redirect = map[string]string{"rcproxy/core/pkg/redis.Dial": "rcproxy/core.VerifProbeDial"}
+				j.MapOrderOff = true
+				return j
+			}
+			js := []*JobCfg{noMapOrder(job(pkgServer, "HarnessC20Run", 2, 0, 4)), noMapOrder(job(pkgServer, "HarnessC20Run", 2, 1, 3)), noMapOrder(job(pkgServer, "HarnessC20Run", 2, 2, 3)), noMapOrder(job(pkgServer, "HarnessC20Run", 1, 0, 3)),
+				probe(job(pkgServer, "HarnessC20Monitor", 0)), probe(job(pkgServer, "HarnessC20Monitor", 1))}
+			if tier == "thorough" {
+				js = append(js, noMapOrder(job(pkgServer, "HarnessC20Run", 2, 0, 6)), noMapOrder(job(pkgServer, "HarnessC20Run", 2, 1, 5)))
+			}
+			return js
 		},
 		Bounds: func(tier string) string {
-			return "a master with 1..2 replicas, every ban configuration; for every replica that is not banned the solver must find a value of the random source that selects it (cover goal)"
+			return "a master X with 1..2 replicas in every ban configuration and a second master Y: runs of 3..4 (thorough 5..6) reads in EVERY interleaving of reads for X and for Y; for every pattern with at least as many reads for X as X has healthy replicas and for every healthy replica the solver must find values of the random source for which that replica serves a read of the run (cover goal); writes always go to the master. Ban state over a history: a replica is probed healthy, becomes unreachable (noticed by a failing connect on the request path, or by two failing health probes) and is banned, comes back, 100 ms or 2 min pass, the next health probe succeeds: reads must be able to reach it again (cover goal)"
 		},
-		Assumptions: []string{"a uniform random source reaches every value; the claim is reachability of every healthy replica, not a distribution"}, Stubs: []string{stubWorld, "math/rand.Intn = arbitrary value in range"},
-		Outside: []string{"statistical quality of math/rand, the ban-timer arithmetic"}})
+		Assumptions: []string{"a uniform random source reaches every value; the claim is reachability of every healthy replica within a run, not a distribution", "the health monitor goroutine is run tick by tick (time.NewTicker pre-loaded by the harness, probe outcome = harness table in place of redis.Dial + PING); every loop iteration starts from the same state, so running the body again continues a monitor that was left parked"}, Stubs: []string{stubWorld, "math/rand.Intn = arbitrary value in range", "time.NewTicker = channel pre-loaded with the ticks the harness asks for", "redis.Dial inside Pool.detect = harness probe table (job-level redirect)"},
+		Outside: []string{"statistical quality of math/rand, the real 5 s cadence and the 5 s retry sleep of the monitor, concurrent access of the ban fields by the monitor goroutine and the event loop"}})
 	register(&CheckSpec{ID: "C07", Patterns: []string{pkgServer},
 		Jobs: func(tier string) []*JobCfg {
 			js := []*JobCfg{job(pkgServer, "HarnessC07", 0, 2, 0), job(pkgServer, "HarnessC07", 1, 2, 0), job(pkgServer, "HarnessC07", 2, 2, 0), job(pkgServer, "HarnessC07", 1, 3, 0), job(pkgServer, "HarnessC07", 0, 3, 2)}
